@@ -161,6 +161,29 @@ Proof.
     rewrite He in H. discriminate.
 Qed.
 
+(* the boolean relation is not stricter than the statement: for a connected peer PickSpec implies pick_ok *)
+Lemma count_have_pos m a p i : In (a, p) (m_peers m) -> nth i (p_pieces p) false = true -> 0 < count_have m i.
+Proof.
+  intros Hin Hn. unfold count_have.
+  assert (H : In (a, p) (filter (fun kp => nth i (p_pieces (snd kp)) false) (m_peers m))) by (apply filter_In; split; [exact Hin | exact Hn]).
+  destruct (filter _ (m_peers m)) as [|x l]; [destruct H|]. unfold len. cbn [length]. lia.
+Qed.
+
+Theorem pick_spec_ok m a p pick : In (a, p) (m_peers m) -> PickSpec m p pick -> pick_ok m p pick = true.
+Proof.
+  intros Hin. destruct pick as [i|]; cbn [PickSpec pick_ok].
+  - intros (Hn & (s & Hs & Hh & Hd) & Hmin).
+    assert (He : eligible m p (N.to_nat i) = true).
+    { unfold eligible. rewrite Hn. rewrite andb_true_r. apply andb_true_iff. split.
+      - unfold desired. rewrite Hs. unfold end_game. destruct (still_missing m <? session_END_GAME_LIMIT) eqn:Eg.
+        + rewrite Hh. reflexivity.
+        + destruct Hd as [Hd|Hd]; [exact Hd | apply N.ltb_lt in Hd; congruence].
+      - apply N.ltb_lt. eapply count_have_pos; eassumption. }
+    rewrite He. cbn [andb]. apply forallb_forall. intros j Hj. destruct (eligible m p j) eqn:Ej; [|reflexivity].
+    cbn [negb orb]. apply N.leb_le. apply Hmin; [apply in_indices; exact Hj | exact Ej].
+  - intros H. apply forallb_forall. intros j Hj. rewrite (H j (proj1 (in_indices m j) Hj)). reflexivity.
+Qed.
+
 (* ---- statuses: Have is absorbing (C12), who may be served (C09), what is advertised (C11) ------- *)
 Lemma nth_set_nth {A} (l : list A) i j x : nth_error (set_nth l i x) j =
   if Nat.eqb i j then (match nth_error l i with Some _ => Some x | None => None end) else nth_error l j.
